@@ -1,6 +1,6 @@
 #!/bin/bash
 # usage: tools_run_seed.sh <seeded/ID dir> <tier> <Cxx> [Cxx...] : apply the seeded change to /repo, run the checks, undo it
-S=$1; T=$2; shift 2
+S=$(realpath $1); T=$2; shift 2
 git -C /repo diff --quiet || { echo "/repo dirty"; exit 9; }
 git -C /repo apply $S/patch.diff || { echo "patch does not apply"; exit 9; }
 for p in "$@"; do echo "--- $p on $(basename $S)"; /verif/check $p $T 2>&1 | grep -E "^(VIOLATION|KNOWN|INCONCLUSIVE|C[0-9]+ )" | cut -c1-300; echo "exit=${PIPESTATUS[0]}"; done
